@@ -398,6 +398,9 @@ func RacePass() int {
 		{Scenario: "exec2", A: strings.Repeat("print 1\n", 200) + "def b \"n\" { x = 1 }\nbind b -> struct"},
 		{Scenario: "execdump", A: strings.Repeat("print 1\n", 200) + "def b \"n\" { x = 1 }\nbind b -> struct"},
 		{Scenario: "bind2", A: "def c11target \"nm\" { x = 3 }\nbind c11target -> struct"},
+		{Scenario: "dump2", A: strings.Repeat("print \""+strings.Repeat("s", 300)+"\"\n", 50) + "def b \"n\" { x = 1 }"},
+		{Scenario: "load2", A: strings.Repeat("print 1\n", 200) + "def b \"n\" { x = 1 }\nbind b -> struct"},
+		{Scenario: "unmarshal2", A: "def c11target \"nm\" { x = 3 }\nbind c11target -> struct", B: strings.Repeat("print 2\n", 100) + "def c11target { x = 4 }\nbind c11target -> struct"},
 	}
 	for rep := 0; rep < 5; rep++ {
 		for _, c := range cases {
